@@ -65,6 +65,9 @@ type Known struct {
 	Fingerprint string `json:"fingerprint"`
 	What        string `json:"what"`
 	Commit      string `json:"commit,omitempty"`
+	// MinCost: the entry covers the finding only when its cheapest witness needs at
+	// least this many preemptions (a cheaper witness is a different, unlisted violation).
+	MinCost int `json:"min_cost,omitempty"`
 }
 
 func goEnv() []string {
@@ -309,7 +312,7 @@ func main() {
 	os.MkdirAll(filepath.Join(verif, "replays"), 0o755)
 	for _, fp := range fps {
 		f := found[fp]
-		if k := matchKnown(known, prop, fp); k != nil {
+		if k := matchKnown(known, prop, fp, f.Cost); k != nil {
 			fmt.Printf("KNOWN-FINDING: property=%s %s — %s\n", prop, fp, k.What)
 			knownSeen = append(knownSeen, fp)
 			continue
@@ -436,9 +439,9 @@ func loadKnown() []Known {
 	return k
 }
 
-func matchKnown(ks []Known, prop, fp string) *Known {
+func matchKnown(ks []Known, prop, fp string, cost int) *Known {
 	for i := range ks {
-		if ks[i].Status == "known" && ks[i].Property == prop && ks[i].Fingerprint == fp {
+		if ks[i].Status == "known" && ks[i].Property == prop && ks[i].Fingerprint == fp && cost >= ks[i].MinCost {
 			return &ks[i]
 		}
 	}
